@@ -1413,6 +1413,7 @@ func runRaftsim(args []string) {
 	onlyP := fs.String("profile", "", "scheduler profile (default: all in turn)")
 	qa := fs.Int("stageA", 0, "random cases for CommittedIndex / VoteResult")
 	qd := fs.Int("stageD", 0, "random cases for JointConfig.CommittedIndex / VoteResult and confchange.Changer sequences (quorum.go)")
+	qj := fs.Int("stageJ", 0, "scenarios of joint configuration changes through RawNode (raftjoint.go)")
 	one := fs.Int64("one", 0, "run exactly one schedule with this schedule seed (replay; give -n and -profile)")
 	_ = fs.Parse(args)
 	if v := os.Getenv("VERIF_SEED"); v != "" && *seed == 1 {
@@ -1468,5 +1469,8 @@ func runRaftsim(args []string) {
 	}
 	if *qd > 0 {
 		stageD(w, master, *qd)
+	}
+	if *qj > 0 {
+		stageJ(w, master, *qj)
 	}
 }
